@@ -21,7 +21,12 @@ package rlpx
 
 import (
 	"bytes"
+	"crypto/aes"
+	"crypto/cipher"
 	"crypto/ecdsa"
+	"crypto/hmac"
+	"crypto/sha256"
+	"encoding/binary"
 	"errors"
 	"fmt"
 	"io"
@@ -36,6 +41,7 @@ import (
 	"github.com/ethereum/go-ethereum/crypto/ecies"
 	"github.com/ethereum/go-ethereum/crypto/keccak"
 	"github.com/ethereum/go-ethereum/internal/verif/mc"
+	"github.com/ethereum/go-ethereum/rlp"
 )
 
 // ---------------------------------------------------------------------------------------------------
@@ -760,36 +766,362 @@ func TestVerif_C44(t *testing.T) {
 
 		// handshake packets carrying invalid curve points
 		c44InvalidPoints(r)
+		c44CraftedPoints(r)
 	})
 }
 
-// c44BadPoints returns 64-byte X||Y encodings that are not points of secp256k1.
-func c44BadPoints() map[string][]byte {
-	good := crypto.FromECDSAPub(&c44Keys[2].PublicKey)[1:]
-	p := crypto.S256().Params().P
-	out := map[string][]byte{}
-	out["zero"] = make([]byte, 64)
-	offCurve := bytes.Clone(good)
-	offCurve[63] ^= 1
-	out["y-off-curve"] = offCurve
-	xp := bytes.Clone(good)
-	copy(xp[:32], p.Bytes())
-	out["x-equals-p"] = xp
-	xBig := bytes.Clone(good)
-	x := new(big.Int).SetBytes(good[:32])
-	x.Add(x, p)
-	if x.BitLen() <= 256 {
-		copy(xBig[:32], x.FillBytes(make([]byte, 32)))
-		out["x-plus-p"] = xBig // congruent to a valid x, but not canonical
+// ---------------------------------------------------------------------------------------------------
+// invalid curve points
+
+var c44P = crypto.S256().Params().P
+
+// c44OnCurve: canonical coordinates and y^2 = x^3 + 7 (mod p), checked with plain big.Int arithmetic.
+func c44OnCurve(x, y *big.Int) bool {
+	if x.Sign() < 0 || y.Sign() < 0 || x.Cmp(c44P) >= 0 || y.Cmp(c44P) >= 0 {
+		return false
 	}
-	ones := bytes.Repeat([]byte{0xff}, 64)
-	out["all-ones"] = ones
+	l := new(big.Int).Mul(y, y)
+	l.Mod(l, c44P)
+	rr := new(big.Int).Mul(x, x)
+	rr.Mul(rr, x)
+	rr.Add(rr, big.NewInt(7))
+	rr.Mod(rr, c44P)
+	return l.Cmp(rr) == 0
+}
+
+// c44AffineAdd / c44AffineMul: textbook affine chord-and-tangent formulas for y^2 = x^3 + b with a = 0. The
+// formulas never use b, so on an input that is not on secp256k1 they silently compute in the group of the curve
+// with b' = y^2 - x^3 — exactly what an implementation without point validation does. nil = point at infinity.
+func c44AffineAdd(x1, y1, x2, y2 *big.Int) (*big.Int, *big.Int) {
+	if x1 == nil {
+		return x2, y2
+	}
+	if x2 == nil {
+		return x1, y1
+	}
+	var lam *big.Int
+	if x1.Cmp(x2) == 0 {
+		if y1.Cmp(y2) != 0 || y1.Sign() == 0 {
+			return nil, nil
+		}
+		num := new(big.Int).Mul(x1, x1)
+		num.Mul(num, big.NewInt(3))
+		den := new(big.Int).Lsh(y1, 1)
+		den.Mod(den, c44P)
+		inv := new(big.Int).ModInverse(den, c44P)
+		if inv == nil {
+			return nil, nil
+		}
+		lam = num.Mul(num, inv)
+	} else {
+		num := new(big.Int).Sub(y2, y1)
+		den := new(big.Int).Sub(x2, x1)
+		den.Mod(den, c44P)
+		inv := new(big.Int).ModInverse(den, c44P)
+		if inv == nil {
+			return nil, nil
+		}
+		lam = num.Mul(num, inv)
+	}
+	lam.Mod(lam, c44P)
+	x3 := new(big.Int).Mul(lam, lam)
+	x3.Sub(x3, x1)
+	x3.Sub(x3, x2)
+	x3.Mod(x3, c44P)
+	y3 := new(big.Int).Sub(x1, x3)
+	y3.Mul(y3, lam)
+	y3.Sub(y3, y1)
+	y3.Mod(y3, c44P)
+	return x3, y3
+}
+
+func c44AffineMul(x, y, k *big.Int) (*big.Int, *big.Int) {
+	x = new(big.Int).Mod(x, c44P)
+	y = new(big.Int).Mod(y, c44P)
+	var rx, ry *big.Int
+	for i := k.BitLen() - 1; i >= 0; i-- {
+		rx, ry = c44AffineAdd(rx, ry, rx, ry)
+		if k.Bit(i) == 1 {
+			rx, ry = c44AffineAdd(rx, ry, x, y)
+		}
+	}
+	return rx, ry
+}
+
+type c44Point struct {
+	name string
+	x, y *big.Int
+}
+
+func (q c44Point) bytes64() []byte {
+	out := make([]byte, 64)
+	q.x.FillBytes(out[:32])
+	q.y.FillBytes(out[32:])
 	return out
+}
+
+// c44InvalidPointSet: encodable (32+32 byte) coordinate pairs that are not points of secp256k1, derived from a
+// valid point (x, y) and from the valid point with the smallest x (so that x+p still fits into 32 bytes).
+func c44InvalidPointSet() []c44Point {
+	pub := &c44Keys[2].PublicKey
+	x, y := pub.X, pub.Y
+	one := big.NewInt(1)
+	var sx, sy *big.Int
+	for c := int64(1); ; c++ {
+		sx = big.NewInt(c)
+		rhs := new(big.Int).Exp(sx, big.NewInt(3), c44P)
+		rhs.Add(rhs, big.NewInt(7))
+		if sy = new(big.Int).ModSqrt(rhs, c44P); sy != nil {
+			break
+		}
+	}
+	if !c44OnCurve(x, y) || !c44OnCurve(sx, sy) {
+		panic("c44: base points must be valid")
+	}
+	ones := new(big.Int).Sub(new(big.Int).Lsh(one, 256), one)
+	cands := []c44Point{
+		{"y+1", x, new(big.Int).Add(y, one)},
+		{"-y+1", x, new(big.Int).Add(new(big.Int).Sub(c44P, y), one)},
+		{"x+1", new(big.Int).Add(x, one), y},
+		{"x+p", new(big.Int).Add(sx, c44P), sy},
+		{"x=p", new(big.Int).Set(c44P), y},
+		{"zero", new(big.Int), new(big.Int)},
+		{"all-ones", ones, ones},
+	}
+	var out []c44Point
+	for _, q := range cands {
+		if q.x.BitLen() > 256 || q.y.BitLen() > 256 {
+			panic("c44: invalid point " + q.name + " not encodable")
+		}
+		if c44OnCurve(q.x, q.y) {
+			panic("c44: candidate " + q.name + " is a valid point")
+		}
+		out = append(out, q)
+	}
+	return out
+}
+
+// c44SharedCandidates: the 32-byte ECDH x coordinate a recipient with private scalar d would derive from point q
+// if it used it without validation — once with the harness' own affine arithmetic, once with the library's
+// ScalarMult (they may differ on off-curve input, e.g. with endomorphism-based multiplication).
+func c44SharedCandidates(q c44Point, d *big.Int) map[string][]byte {
+	out := map[string][]byte{}
+	if rx, _ := c44AffineMul(q.x, q.y, d); rx != nil {
+		out["own-affine"] = rx.FillBytes(make([]byte, 32))
+	} else {
+		out["own-affine"] = make([]byte, 32) // infinity: the best guess is x = 0
+	}
+	func() {
+		defer func() { recover() }()
+		if lx, _ := crypto.S256().ScalarMult(q.x, q.y, d.Bytes()); lx != nil && lx.BitLen() <= 256 {
+			out["library"] = lx.FillBytes(make([]byte, 32))
+		}
+	}()
+	return out
+}
+
+// c44SealWith builds an EIP-8 handshake packet (prefix || 0x04 || X || Y || iv || ciphertext || tag) around plain
+// for ephemeral "public key" q and ECDH result z, following ECIES_AES128_SHA256 as used by package ecies
+// (NIST concat-KDF over SHA-256, AES-128-CTR, HMAC-SHA-256 with the size prefix as shared MAC data). That this
+// reimplementation is right is established by the control cases, which a real Conn must accept.
+func c44SealWith(q c44Point, z, plain []byte) []byte {
+	plain = append(bytes.Clone(plain), make([]byte, 150)...) // EIP-8 padding
+	prefix := make([]byte, 2)
+	binary.BigEndian.PutUint16(prefix, uint16(len(plain)+eciesOverhead))
+	kd := sha256.New()
+	kd.Write([]byte{0, 0, 0, 1})
+	kd.Write(z)
+	k := kd.Sum(nil)
+	ke := k[:16]
+	kmh := sha256.Sum256(k[16:])
+	iv := crypto.Keccak256([]byte("c44 iv"))[:16]
+	block, err := aes.NewCipher(ke)
+	if err != nil {
+		panic(err)
+	}
+	em := make([]byte, 16+len(plain))
+	copy(em, iv)
+	cipher.NewCTR(block, iv).XORKeyStream(em[16:], plain)
+	mac := hmac.New(sha256.New, kmh[:])
+	mac.Write(em)
+	mac.Write(prefix)
+	pkt := append(bytes.Clone(prefix), 0x04)
+	pkt = append(pkt, q.bytes64()...)
+	pkt = append(pkt, em...)
+	pkt = append(pkt, mac.Sum(nil)...)
+	return pkt
+}
+
+// c44CraftedPoints: handshake packets whose ECIES ephemeral key (auth and auth-ack) or embedded static key is
+// an invalid point and whose ciphertext, tag and identity signature are CONSISTENT with what the victim's own
+// scalar yields on that point. The harness uses the victim's private key for that, standing in for an attacker
+// who chose a small-order point on a weak curve. The only thing that can reject such a packet is point
+// validation; the victim must report an error, derive no secrets and hold no session.
+func c44CraftedPoints(r *mc.R) {
+	initKey, respKey, ephKey := c44Keys[0], c44Keys[1], c44Keys[2]
+	validEph := c44Point{"valid", ephKey.PublicKey.X, ephKey.PublicKey.Y}
+
+	authPlain := func() []byte {
+		h := handshakeState{initiator: true, remote: ecies.ImportECDSAPublic(&respKey.PublicKey)}
+		msg, err := h.makeAuthMsg(initKey)
+		if err != nil {
+			panic(err)
+		}
+		b, err := rlp.EncodeToBytes(msg)
+		if err != nil {
+			panic(err)
+		}
+		return b
+	}
+	ackPlain := func() []byte {
+		resp := new(authRespV4)
+		copy(resp.RandomPubkey[:], crypto.FromECDSAPub(&ephKey.PublicKey)[1:])
+		copy(resp.Nonce[:], crypto.Keccak256([]byte("c44 ack nonce")))
+		resp.Version = 4
+		b, err := rlp.EncodeToBytes(resp)
+		if err != nil {
+			panic(err)
+		}
+		return b
+	}
+	// victim = recipient: the attacker writes the packet and drains whatever comes back
+	toRecipient := func(pkt []byte) (hsErr error, remote *ecdsa.PublicKey, session bool, panicked string) {
+		d := c44NewDuplex(c44Frag{}, nil)
+		d.run(func(nc net.Conn) {
+			nc.Write(pkt)
+			nc.Read(make([]byte, 2048))
+		}, func(nc net.Conn) {
+			defer func() {
+				if x := recover(); x != nil {
+					panicked = fmt.Sprint(x)
+				}
+			}()
+			conn := NewConn(nc, nil)
+			remote, hsErr = conn.Handshake(respKey)
+			session = conn.session != nil
+		})
+		return
+	}
+	// victim = initiator: the attacker consumes the auth packet and answers with the crafted auth-ack
+	toInitiator := func(pkt []byte) (hsErr error, remote *ecdsa.PublicKey, session bool, panicked string) {
+		d := c44NewDuplex(c44Frag{}, nil)
+		d.run(func(nc net.Conn) {
+			defer func() {
+				if x := recover(); x != nil {
+					panicked = fmt.Sprint(x)
+				}
+			}()
+			conn := NewConn(nc, &respKey.PublicKey)
+			remote, hsErr = conn.Handshake(initKey)
+			session = conn.session != nil
+		}, func(nc net.Conn) {
+			var h handshakeState
+			if _, err := h.readMsg(new(authMsgV4), respKey, nc); err != nil {
+				panic(err)
+			}
+			nc.Write(pkt)
+		})
+		return
+	}
+
+	// control: the same construction around a VALID ephemeral point must be accepted, otherwise the cases
+	// below would be rejected for being malformed and prove nothing
+	for _, which := range []string{"auth", "ack"} {
+		victim, plain, deliver := respKey, authPlain, toRecipient
+		if which == "ack" {
+			victim, plain, deliver = initKey, ackPlain, toInitiator
+		}
+		for name, z := range c44SharedCandidates(validEph, victim.D) {
+			r.Case(map[string]any{"part": "crafted-point", "where": "ecies-envelope-" + which, "point": "valid(control)", "ecdh": name}, func() error {
+				hsErr, remote, session, panicked := deliver(c44SealWith(validEph, z, plain()))
+				if panicked != "" || hsErr != nil || !session {
+					return fmt.Errorf("control packet with a valid ephemeral point was not accepted (err %v, panic %q): the crafted-packet construction is broken", hsErr, panicked)
+				}
+				if which == "auth" && (remote == nil || remote.X.Cmp(initKey.PublicKey.X) != 0) {
+					return fmt.Errorf("control: recipient learned a wrong initiator key")
+				}
+				r.Outcome("crafted-point:control-accepted")
+				return nil
+			})
+		}
+	}
+
+	for _, q := range c44InvalidPointSet() {
+		// (1)(2) ECIES envelope of auth / auth-ack
+		for _, which := range []string{"auth", "ack"} {
+			victim, plain, deliver := respKey, authPlain, toRecipient
+			if which == "ack" {
+				victim, plain, deliver = initKey, ackPlain, toInitiator
+			}
+			cands := c44SharedCandidates(q, victim.D)
+			for _, name := range []string{"own-affine", "library"} {
+				z, ok := cands[name]
+				if !ok {
+					r.Outcome("crafted-point:library-refuses-to-multiply")
+					continue
+				}
+				c := map[string]any{"part": "crafted-point", "where": "ecies-envelope-" + which, "point": q.name, "ecdh": name}
+				r.Case(c, func() error {
+					hsErr, _, session, panicked := deliver(c44SealWith(q, z, plain()))
+					if panicked != "" {
+						return fmt.Errorf("victim panicked on ephemeral key %s: %s", q.name, panicked)
+					}
+					if hsErr == nil || session {
+						return fmt.Errorf("%s packet whose ECIES ephemeral key is the invalid point %s (%x..) and whose ciphertext/tag match the victim's ECDH on that point was decrypted and used: Handshake returned %v, session=%v", which, q.name, q.bytes64()[:8], hsErr, session)
+					}
+					if !errors.Is(hsErr, ecies.ErrInvalidPublicKey) {
+						return fmt.Errorf("%s packet with invalid ephemeral point %s failed with %q, not with ecies.ErrInvalidPublicKey: the point was fed into the key agreement before being refused", which, q.name, hsErr)
+					}
+					r.Outcome("crafted-point:rejected-as-invalid-key")
+					return nil
+				})
+				r.DistinctHash(mc.Hash64(fmt.Sprint("cp", which, q.name, name)))
+				r.Sample(c)
+			}
+		}
+		// (3) static initiator key inside the auth message, with the identity signature made over the token
+		// the recipient derives from that point; the envelope is honest (package's own sealEIP8)
+		cands := c44SharedCandidates(q, respKey.D)
+		for _, name := range []string{"own-affine", "library"} {
+			token, ok := cands[name]
+			if !ok {
+				continue
+			}
+			c := map[string]any{"part": "crafted-point", "where": "auth.InitiatorPubkey+signature", "point": q.name, "ecdh": name}
+			r.Case(c, func() error {
+				h := handshakeState{initiator: true, remote: ecies.ImportECDSAPublic(&respKey.PublicKey)}
+				msg := new(authMsgV4)
+				nonce := crypto.Keccak256([]byte("c44 init nonce"))
+				sig, err := crypto.Sign(xor(token, nonce), ephKey)
+				if err != nil {
+					panic(err)
+				}
+				copy(msg.Signature[:], sig)
+				copy(msg.InitiatorPubkey[:], q.bytes64())
+				copy(msg.Nonce[:], nonce)
+				msg.Version = 4
+				pkt, err := h.sealEIP8(msg)
+				if err != nil {
+					panic(err)
+				}
+				hsErr, _, session, panicked := toRecipient(pkt)
+				if panicked != "" {
+					return fmt.Errorf("recipient panicked on static key %s: %s", q.name, panicked)
+				}
+				if hsErr == nil || session {
+					return fmt.Errorf("auth message with static key = invalid point %s and a matching identity signature was accepted", q.name)
+				}
+				r.Outcome("crafted-point:static-key-rejected")
+				return nil
+			})
+		}
+	}
 }
 
 func c44InvalidPoints(r *mc.R) {
 	initKey, respKey := c44Keys[0], c44Keys[1]
-	for name, bad := range c44BadPoints() {
+	for _, q := range c44InvalidPointSet() {
+		name, bad := q.name, q.bytes64()
 		// (1) auth message whose InitiatorPubkey is not a curve point -> recipient must fail
 		r.Case(map[string]any{"part": "invalid-point", "where": "auth.InitiatorPubkey", "point": name}, func() error {
 			d := c44NewDuplex(c44Frag{}, nil)
@@ -882,6 +1214,9 @@ func c44InvalidPoints(r *mc.R) {
 				recv := 1 - dir
 				if res[recv].hsErr == nil || res[recv].panic != "" {
 					return fmt.Errorf("party %d decrypted a handshake packet whose ECIES ephemeral key is %q", recv, name)
+				}
+				if !errors.Is(res[recv].hsErr, ecies.ErrInvalidPublicKey) {
+					return fmt.Errorf("party %d refused the packet with ephemeral key %q with %q, not with ecies.ErrInvalidPublicKey: the point reached the key agreement", recv, name, res[recv].hsErr)
 				}
 				if len(res[recv].got) != 0 {
 					return fmt.Errorf("party %d delivered messages", recv)
